@@ -28,30 +28,9 @@ Lemma gen_exchange_shape : src_exchange = map s2b [
   "err = ErrQuestion" ].
 Proof. vm_compute. reflexivity. Qed.
 
-Lemma gen_question_matches_shape : src_question_matches = map s2b [
-  "if len(resp) != 1 {";
-  "return false";
-  "}";
-  "r := resp[0]";
-  "return r.Qtype == req.Qtype &&";
-  "r.Qclass == req.Qclass &&";
-  "dns.CanonicalName(r.Name) == dns.CanonicalName(req.Name)" ].
-Proof. vm_compute. reflexivity. Qed.
-
-Lemma gen_progressing_referral_shape : src_progressing_referral = map s2b [
-  "if !dnsname.Sub(authZone, referral) {";
-  "return false";
-  "if strings.EqualFold(dns.CanonicalName(referral), dns.CanonicalName(authZone)) {";
-  "return false";
-  "return dnsname.Sub(referral, qname)" ].
-Proof. vm_compute. reflexivity. Qed.
-
-Lemma gen_valid_referral_shape : src_valid_referral = map s2b [
-  "return info.nsRecord != nil &&";
-  "!info.incoherent &&";
-  "info.nsRecord.Header().Class == q.Qclass &&";
-  "progressingReferral(info.nsRecord.Header().Name, authZone, q.Name)" ].
-Proof. vm_compute. reflexivity. Qed.
+(* QuestionMatches, progressingReferral and validReferral are no longer pinned by text: they are TRANSLATED
+   (Gen/C07.v go_QuestionMatches, go_progressingReferral, go_validReferral) and proved equal to the model in
+   Proofs_gen.v (gen_QuestionMatches, gen_progressingReferral, gen_validReferral). *)
 
 Lemma gen_extract_info_shape : src_extract_info = map s2b [
   "case *dns.SOA:";
